@@ -18,6 +18,7 @@ struct Scenario {
     std::string name;
     uint32_t mask = 0;
     bool expect_propagate = true;          // a throw must reach the caller (otherwise: captured / swallowed as documented)
+    bool twice = false;                    // double fault: the enabled site invoked next after the throwing one throws as well
     std::function<void()> thrower;         // runs between fault_arm and fault_disarm on the faulting thread
     std::function<void(bool threw, long k)> after;   // same thread, after unwinding (lock must be free by now)
     std::function<void()> partner;         // concurrent thread (optional)
@@ -37,7 +38,7 @@ static void vio(const std::string& key, const std::string& scen, const std::stri
     vrf::violation(key, "{\"scenario\":" + vrf::jstr(scen) + (extra.empty() ? "" : ",\"info\":" + extra) + "}");
 }
 
-constexpr int NSCEN = 17;
+constexpr int NSCEN = 18;
 static Scenario make_scenario(int idx, bool concurrent)
 {
     Scenario s;
@@ -530,6 +531,48 @@ static Scenario make_scenario(int idx, bool concurrent)
             };
             break;
         }
+        case 17: {  // lr_guarded::modify, double fault: the functor throws and the copy that rolls back / completes throws too.
+            // No statement covers the value then; what remains is "releases the lock, stays usable": both copies are
+            // still live objects (readers and later functors get a live object, nothing is destroyed twice)
+            auto lr = std::make_shared<lr_guarded<Cell, vrf::mutex_t>>(false);
+            lr->modify([](Cell& c) {
+                Win w(c, true);
+                c.append_raw(1);
+            });
+            s.name = "lr_guarded::modify functor, then the restoring copy (double fault)";
+            s.mask = M_FUNCTOR | M_COPYASSIGN;
+            s.twice = true;
+            s.thrower = [lr] {
+                lr->modify([](Cell& c) {
+                    Win w(c, true);
+                    vrf::maybe_throw(S_FUNCTOR);
+                    c.append_raw(5);
+                });
+            };
+            s.after = [lr](bool, long) {
+                for (int i = 0; i < 2; i++) {  // two modifications: each side is the first write location once
+                    (void)lr_read(*lr);
+                    lr->modify([](Cell& c) {
+                        Win w(c, true);
+                        c.check("noop after a double fault");
+                    });
+                }
+                (void)lr_read(*lr);
+            };
+            s.partner = [lr] {
+                for (int i = 0; i < 2; i++) {
+                    (void)lr_read(*lr);
+                    vrf::hyield();
+                }
+                lr->modify([](Cell& c) {
+                    Win w(c, true);
+                    c.check("partner after a double fault");
+                });
+                (void)lr_read(*lr);
+            };
+            s.verify = [lr](bool, long) { (void)lr_read(*lr); };
+            break;
+        }
     }
     return s;
 }
@@ -548,7 +591,7 @@ static RunOut run_scenario(long ridx, int idx, long k, bool concurrent, bool std
     RunOut out;
     std::atomic<int> caught{0};
     R.spawn([&] {
-        vrf::fault_arm(s.mask, k, std_flavour);
+        vrf::fault_arm(s.mask, k, std_flavour, s.twice);
         try {
             s.thrower();
         }
